@@ -82,13 +82,15 @@ Definition amp_pr (s : scfg) (D : Q) (x : actx) (a : ain) (b : alib) (gd : Q * Q
   if String.eqb (i_var a) "" then qmin 0 (qmin (pt - fst gd + b_gfm b + s_ext s) (b_pmax b) - pt)
   else if s_pm s then qmin 0 (b_pmax b - pt)
   else qmin 0 (b_pmax b - (x_ptot x + D - x_loss x + fst gd)).
-(* set_amplifier_voa: (out_voa, what is added to delta_p and effective_gain) *)
+(* set_amplifier_voa: (out_voa, what is added to delta_p and effective_gain); the rounded head-room minus the
+   margin is capped by the head-room itself (gnpy fix 99151283; before it: finding F21) *)
 Definition amp_voa (s : scfg) (x : actx) (a : ain) (b : alib) (gd : Q * Q) (pr : Q) : Q * Q :=
   match i_voa a with
   | Some v => (v, 0%Q)
   | None =>
       if s_pm s && b_vauto b then
-        let v := qmax (r2f (qmin (b_pmax b - (x_ptot x + snd gd)) (b_gfm b - (fst gd + pr))) (s_vstep s) - s_margin s) 0 in
+        let m := qmin (b_pmax b - (x_ptot x + snd gd)) (b_gfm b - (fst gd + pr)) in
+        let v := qmax (qmin (r2f m (s_vstep s) - s_margin s) m) 0 in
         (v, v)
       else (0%Q, 0%Q)
   end.
@@ -149,12 +151,13 @@ Fixpoint rounds (c : cfg) (n : nat) (l : line) : res line :=
 
 (* ---------- from the designed fibres to the amplifier contexts (set_egress_amplifier's walk) ---------- *)
 (* design_span_loss cached by add_fiber_padding on the last fibre of a span (r: the span before padding):
-   this_span_loss, plus the WHOLE att_in of the first fibre when padding was added (finding F20) *)
+   this_span_loss, plus the padding that was added on the first fibre (gnpy fix 13a35c31; before it the whole
+   att_in of the first fibre was added: finding F20) *)
 Definition run_dsl (c : cfg) (r : list elem) : Q :=
   let sl := run_loss r in
   if Qltb sl (c_pad c) then
     match r with
-    | Fib g :: _ => (sl + (f_att g + (c_pad c - sl)))%Q
+    | Fib g :: _ => (sl + (c_pad c - sl))%Q
     | _ => sl
     end
   else sl.
